@@ -1,11 +1,18 @@
 pub mod c01;
+pub mod c05;
+pub mod c12;
+pub mod c20;
 
 use crate::engine::DynProperty;
 
-pub fn all() -> Vec<Box<dyn DynProperty>> {
-    vec![Box::new(c01::C01::new())]
+pub fn by_id(id: &str) -> Option<Box<dyn DynProperty>> {
+    Some(match id {
+        "C01" => Box::new(c01::C01::new()),
+        "C05" => Box::new(c05::C05::new()),
+        "C12" => Box::new(c12::C12::new()),
+        "C20" => Box::new(c20::C20::new()),
+        _ => return None,
+    })
 }
 
-pub fn by_id(id: &str) -> Option<Box<dyn DynProperty>> {
-    all().into_iter().find(|p| p.id() == id)
-}
+pub const IDS: &[&str] = &["C01", "C05", "C12", "C20"];
